@@ -140,7 +140,11 @@ class Int(numerical.Numerical):
     @property
     def values(self):
         # The lattice is computed with float arithmetic for log sampling.
-        return tuple(int(value) for value in super().values)
+        values = super().values
+        if isinstance(values, tuple):
+            return tuple(int(value) for value in values)
+        # Stay lazy: the lattice of a stepped Int can be very large.
+        return (int(value) for value in values)
 
     def value_to_prob(self, value):
         if self.step is None:
